@@ -769,11 +769,11 @@ Proof.
     cbn [opt_d app]. rewrite (span_app is_word k 58 _ Hw eq_refl). cbv beta iota. rewrite Hn. rewrite eat2_hit.
     rewrite (span_app not_bar_brace dv 124 _ Hdbb eq_refl). cbv beta iota. rewrite Hdn.
     rewrite match_branches_hit by assumption. f_equal. f_equal.
-    cbn [length]. rewrite !app_length. cbn [length]. rewrite !app_length. cbn [length]. rewrite !app_length. cbn [length]. lia.
+    cbn [length]. repeat (rewrite app_length; cbn [length]). lia.
   - cbn [opt_d app]. rewrite (span_app is_word k 124 _ Hw eq_refl). cbv beta iota. rewrite Hn.
     rewrite eat2_miss by discriminate.
     rewrite match_branches_hit by assumption. f_equal. f_equal.
-    cbn [length]. rewrite !app_length. cbn [length]. rewrite !app_length. cbn [length]. lia.
+    cbn [length]. repeat (rewrite app_length; cbn [length]). lia.
 Qed.
 
 (* the true/false form with plain branches *)
@@ -809,6 +809,14 @@ Proof.
   - rewrite (scan_hit_err _ _ _ _ _ M). reflexivity.
 Qed.
 
+Lemma process_var_alone : forall m env k, is_key k = true ->
+  process m env (ph_var k) = match resolve m env k None with Some v => Ok v | None => MissingKey k end.
+Proof.
+  intros m env k Hk.
+  pose proof (process_var m env [] [] k eq_refl eq_refl Hk) as PV. cbn [app] in PV. rewrite app_nil_r in PV.
+  rewrite PV. destruct (resolve m env k None); [rewrite app_nil_r|]; reflexivity.
+Qed.
+
 (* a variable inside the chosen branch is resolved by the second pass ... *)
 Theorem true_branch_rescanned : forall m env k a f v,
   is_key k = true -> is_key a = true -> plain_arg f = true ->
@@ -822,7 +830,7 @@ Proof.
   intros m env k a f v Hk Ha Hf Hr Hv.
   destruct (plain_parts f Hf) as [Hfn [Hf36 [_ [Hf125 _]]]].
   destruct (is_key_parts a Ha) as [Han Haw].
-  pose proof (process_var m env [] [] a eq_refl eq_refl Ha) as PV. cbn [app] in PV. rewrite app_nil_r in PV.
+  pose proof (process_var_alone m env a Ha) as PV.
   rewrite <- (app_nil_r (ph_tf k (ph_var a) f)). rewrite <- ph_tf_gen_none.
   unfold process.
   assert (M : repl_tf m env (ph_tf_gen k None (ph_var a) f ++ []) =
@@ -832,12 +840,12 @@ Proof.
       destruct (lookup (map lower k) m) as [x|].
       + inversion Hr; subst. rewrite Hv. reflexivity.
       + destruct (lookup (map upper k) env) as [x|]; [|discriminate]. inversion Hr; subst. rewrite Hv. reflexivity.
-    - unfold ph_var. cbn [forallb]. rewrite forallb_app. rewrite (key_not 124 a) by (auto; lia). reflexivity. }
+    - unfold ph_var. cbn [forallb]. rewrite forallb_app. assert (H124 : 124 < 48 \/ 122 < 124) by lia. rewrite (key_not 124 a H124 Haw). reflexivity. }
   assert (SHAPE : ph_tf_gen k None (ph_var a) f ++ [] =
                   36 :: (123 :: k ++ opt_d None ++ 124 :: ph_var a ++ 124 :: f ++ [125]) ++ []) by reflexivity.
   rewrite SHAPE in M |- *.
   rewrite (scan_hit _ _ _ _ _ M). rewrite scan_skip. cbn [scan prepend]. rewrite app_nil_r.
-  unfold process in PV. rewrite app_nil_r in PV.
+  unfold process in PV.
   assert (P1 : scan (repl_tf m env) (ph_var a) 0 = Ok (ph_var a)).
   { unfold ph_var. rewrite scan_miss.
     - rewrite scan_no_dollar. reflexivity. apply repl_tf_dollar_only. apply ph_var_tail_no_dollar. exact Haw.
@@ -851,6 +859,33 @@ Theorem value_not_rescanned : forall m env k v,
   is_key k = true -> resolve m env k None = Some v -> process m env (ph_var k) = Ok v.
 Proof.
   intros m env k v Hk Hr.
-  pose proof (process_var m env [] [] k eq_refl eq_refl Hk) as PV. cbn [app] in PV. rewrite !app_nil_r in PV.
-  rewrite Hr in PV. exact PV.
+  rewrite process_var_alone by exact Hk. rewrite Hr. reflexivity.
+Qed.
+
+Theorem placeholder_precedence :
+  forall m env pre post k d,
+    no_dollar pre = true -> no_dollar post = true -> is_key k = true -> plain_arg d = true ->
+    process m env (pre ++ ph_var_d k d ++ post) =
+      Ok (pre ++ (match lookup (map lower k) m with
+                  | Some v => v
+                  | None => match lookup (map upper k) env with
+                            | Some v => v
+                            | None => d
+                            end
+                  end) ++ post)
+    /\
+    process m env (pre ++ ph_var k ++ post) =
+      match lookup (map lower k) m with
+      | Some v => Ok (pre ++ v ++ post)
+      | None => match lookup (map upper k) env with
+                | Some v => Ok (pre ++ v ++ post)
+                | None => MissingKey k
+                end
+      end.
+Proof.
+  intros m env pre post k d H1 H2 H3 H4. split.
+  - rewrite process_var_default by assumption. unfold resolve.
+    destruct (lookup (map lower k) m); [reflexivity|]. destruct (lookup (map upper k) env); reflexivity.
+  - rewrite process_var by assumption. unfold resolve.
+    destruct (lookup (map lower k) m); [reflexivity|]. destruct (lookup (map upper k) env); reflexivity.
 Qed.
